@@ -43,7 +43,57 @@ def mats_digest(m) -> str:
     return "|".join([fhex(m.theta), vshex(np.atleast_2d(m.S)), vshex(np.atleast_2d(m.Y)), vshex(np.atleast_2d(m.W))])
 
 
+def full_digest(m) -> str:
+    return "|".join([fhex(m.theta), vshex(np.atleast_2d(m.S)), vshex(np.atleast_2d(m.Y)), vshex(np.atleast_2d(m.W)),
+                     vshex(np.atleast_2d(m.D)), vshex(np.atleast_2d(m.L)),
+                     vshex(np.atleast_2d(m.invMfactors[0])), vshex(np.atleast_2d(m.invMfactors[1]))])
+
+
+def evaluate_insitu(case: Dict[str, Any]) -> Dict[str, Any]:
+    """the matrices object inside real runs: what `update_lbfgs_matrices` returned is what the solver still holds at the next update
+    (nothing between two updates writes into it), and its blocks are those of the stored pairs"""
+    import lbfgsb.main as M
+    from harness.trace import Run
+    out: Dict[str, Any] = {"corr": None, "skipped": None, "tags": ["kind=in-situ"], "prop": []}
+    kw, desc, p = shell.build(case)
+    real = M.update_lbfgs_matrices
+    st: Dict[str, Any] = {"last": None, "obj": None, "calls": 0, "rej": 0}
+
+    def spy(xk, gk, X, G, maxcor, mats, *a, **k):
+        if st["obj"] is mats and st["last"] is not None and full_digest(mats) != st["last"] and not out["prop"]:
+            out["prop"].append({"what": "the matrices object was modified between two updates of the memory (a routine that only reads the "
+                                        "limited-memory matrix wrote into it)", "key": "", "detail": {"update_call": st["calls"]}})
+        nX = len(X)
+        r = real(xk, gk, X, G, maxcor, mats, *a, **k)
+        st["calls"] += 1
+        if len(X) == nX and r is mats:
+            st["rej"] += 1
+        if r.use_factor and not out["prop"]:
+            S, Y = np.atleast_2d(r.S), np.atleast_2d(r.Y)
+            if S.shape == Y.shape and np.atleast_2d(r.L).shape == (S.shape[1], S.shape[1]):
+                A_ = S.T @ Y
+                sc_ = max(1.0, float(np.max(np.abs(A_))))
+                if not np.allclose(np.atleast_2d(r.L), np.tril(A_, -1), rtol=0, atol=1e-10 * sc_):
+                    out["prop"].append({"what": "the block L of the limited-memory matrix is not the strictly lower part of S'Y of the stored pairs",
+                                        "key": "", "detail": {"update_call": st["calls"]}})
+        st["obj"], st["last"] = r, full_digest(r)
+        return r
+    M.update_lbfgs_matrices = spy
+    try:
+        run = Run(kw).execute()
+    finally:
+        M.update_lbfgs_matrices = real
+    if run.nonfinite():
+        return {"corr": None, "skipped": None, "tags": ["nonfinite-objective-domain"], "prop": []}
+    out["tags"] += [f"insitu_updates={min(st['calls'], 20)}", f"insitu_rejected_with_memory={st['rej'] > 0}"]
+    if st["calls"] >= 3:
+        out["nontrivial"] = f"insitu:{case['seed']}"
+    return out
+
+
 def evaluate(case: Dict[str, Any]) -> Dict[str, Any]:
+    if case.get("kind") == "insitu":
+        return evaluate_insitu(case)
     from lbfgsb.bfgsmats import LBFGSB_MATRICES, update_lbfgs_matrices
     out: Dict[str, Any] = {"corr": [], "skipped": None, "tags": [], "prop": []}
     r = random.Random(case["seed"])
@@ -285,13 +335,20 @@ def evaluate(case: Dict[str, Any]) -> Dict[str, Any]:
 def run(tier: str, seed: int) -> int:
     n = 500 if tier == "quick" else 10000
     cases = [{"seed": seed * 1_000_003 + i, "far": i % 4 == 3} for i in range(n)]
+    for i in range(n // 5):
+        s = seed * 1_000_003 + 600_000 + i
+        r = random.Random(s)
+        cases.append({"seed": s, "kind": "insitu", "families": ["rosen", "styb", "osc", "bench", "qp_quartic"], "box": r.choice(["both", "mixed", "lower"]),
+                      "small_budgets": False,
+                      "features": {"jac": "callable", "callback": "none", "ftarget": "none", "gtol_callable": False, "scaler": "none", "update": "none"},
+                      "override": {"maxiter": 40, "maxfun": 4000, "ftol": 0.0, "gtol": 1e-9, "maxls": r.choice([1, 2, 3, 20]), "maxcor": r.choice([1, 2, 3, 5, 10])}})
     return run_property(
         PROP, "harness.props.c10", THEOREMS, MODULES, cases, tier, seed,
         rule="histories of 3..40 candidate updates (accepted pairs from a convex quadratic, rejected ones from negative curvature, zero y, "
              "zero s), n 1..12, maxcor 1..10, a quarter of them far from the origin (|x| up to 1e7, steps down to 1e-4) with candidates whose step is almost orthogonal to the gradient change (slightly negative s.y): after every candidate the deques are compared with a reference bounded FIFO, stored pairs "
              "with the curvature condition, the compact product B·v (through W, invMfactors, bmv) with the dense BFGS recursion, SPD and "
              "secant; the Lean model replays the bookkeeping bit for bit and its compact and dense products are compared with the "
-             "implementation; non-trivial = at least two accepted and one rejected candidate",
+             "implementation; and in situ: inside real runs on non-convex boxed problems (short line searches, so that pairs get rejected) the matrices object must be, at every update of the memory, bit for bit what the previous update returned, and its block L the strictly lower part of S'Y; non-trivial = at least two accepted and one rejected candidate",
         assumptions=["comparisons of B·v use a tolerance 1e-8·cond(B)/min cos(s, y) over the stored pairs; histories with that number > 1e9 are skipped and counted"])
 
 
